@@ -252,7 +252,14 @@ fn dump_const<'tcx>(cx: &mut Cx<'tcx>, ldid: LocalDefId) -> Option<J> {
     if matches!(tcx.def_kind(did), DefKind::Static { .. }) {
         return None;   // const_eval_poly asserts on statics
     }
-    let ty = tcx.type_of(did).instantiate_identity().skip_norm_wip();
+    let raw = tcx.type_of(did).instantiate_identity();
+    let ty = raw.skip_norm_wip();
+    // array lengths written as constant expressions (`[T; N as usize]`) must be evaluated before the value can be destructured
+    let env = ty::TypingEnv::post_analysis(tcx, did);
+    let ty = std::panic::catch_unwind(std::panic::AssertUnwindSafe(|| tcx.try_normalize_erasing_regions(env, raw).ok()))
+        .ok()
+        .flatten()
+        .unwrap_or(ty);
     let r = std::panic::catch_unwind(std::panic::AssertUnwindSafe(|| {
         match tcx.const_eval_poly(did) {
             Ok(val) => {
